@@ -13,6 +13,7 @@ import itertools
 import json
 import random
 import sys
+import threading
 import time
 
 import core
@@ -56,6 +57,7 @@ def impl():
             self.chunks = [bytes(c) for c in chunks]
             self.log = log
             self.bad_max = []
+            self.splits = 0
 
         async def receive(self, max_bytes: int = 65536) -> bytes:
             if max_bytes < 1:
@@ -66,6 +68,7 @@ def impl():
             piece, rest = c[:max_bytes], c[max_bytes:]
             if rest:
                 self.chunks[0] = rest
+                self.splits += 1
             else:
                 self.chunks.pop(0)
             self.log.append(piece)
@@ -244,8 +247,6 @@ class BufRun:
                             mon.append(f"op {idx}: receive({n}) with buffered data {buf0!r} returned {val!r} / touched the wrapped stream")
                         if not buf0 and self.kind and len(pieces[-1]) > n:
                             flags.add("object_surplus_kept")
-                        if not buf0 and not self.kind and rest0 and len(val) < len(self.head_chunk(rest0, wrapped, val)):
-                            flags.add("byte_stream_split_by_max_bytes")
                     elif code == 1:
                         if logical0:
                             mon.append(f"op {idx}: receive({n}) raised EndOfStream with {logical0!r} still available")
@@ -304,16 +305,14 @@ class BufRun:
                         mon.append(f"op {idx}: receive_until(max_bytes={m}) read on with {have} bytes buffered and no delimiter")
                         break
                     have += len(p)
+            if not self.kind and wrapped.splits:
+                flags.add("byte_stream_split_by_max_bytes")
+                wrapped.splits = 0
             if wrapped.bad_max:
                 mon.append(f"op {idx} {o}: wrapped byte stream asked for max_bytes={wrapped.bad_max}")
                 wrapped.bad_max.clear()
         if whole != b"".join(pieces) + b"".join(wrapped.chunks):
             mon.append("wrapped stream bookkeeping broken")
-
-    @staticmethod
-    def head_chunk(rest0, wrapped, val):
-        # the chunk that was at the head before the call: val + (new head if it is the remainder)
-        return rest0[: len(rest0) - len(b"".join(wrapped.chunks[1:]))] if wrapped.chunks else rest0
 
     def flat(self):
         return buf_flat(self.kind, self.chunks, self.ops)
@@ -324,6 +323,34 @@ class BufRun:
                 "ops": [list(o[:1]) + [bytes(x).decode("latin-1") if isinstance(x, (list, tuple, bytes)) else x for x in o[1:]]
                         for o in self.ops],
                 "flat_case": self.flat(), "impl_observations": self.outs}
+
+
+def buf_from_replay(c):
+    """Rebuild a buffered case from a replay / corpus file (strings are latin-1)."""
+    kind = 1 if str(c["wrapped"]).startswith("object") or c["wrapped"] == 1 else 0
+    chunks = [list(x.encode("latin-1")) if isinstance(x, str) else list(x) for x in c["chunks"]]
+    ops = []
+    for o in c["ops"]:
+        o = [list(x.encode("latin-1")) if isinstance(x, str) and i > 0 else x for i, x in enumerate(o)]
+        ops.append(tuple(o))
+    return BufRun(kind, chunks, ops)
+
+
+def text_from_replay(c):
+    return TextRun(ENCODINGS.index(c["encoding"]), [list(x) for x in c["chunks"]], [tuple(o) for o in c["ops"]],
+                   use_textstream=bool(c.get("textstream")))
+
+
+def replay(path):
+    """python harness/c16.py <replay.json>: re-run one stored case on the implementation and print the monitors."""
+    c = json.loads(open(path).read())
+    if c.get("kind") == "tie":
+        c = (c.get("case") or {}).get("case") or {}
+    run = buf_from_replay(c) if c.get("kind") == "buffered" else text_from_replay(c)
+    print("observations:", run.outs)
+    for m in run.mon:
+        print("MONITOR:", m)
+    return 1 if run.mon else 0
 
 
 def chunkings(data):
@@ -790,9 +817,18 @@ def check(tier: str) -> int:
     ]
     if sys.byteorder != "little":
         rep.notes.append("big-endian host: the utf-16/utf-32 native-order part of the model does not apply")
-    proofs_ok = core.proof_stage(rep, "props/C16.v")
-    exe_b = core.build_driver("buffered", "Buffered")
-    exe_t = core.build_driver("text", "Text")
+    # the two model files first (the drivers are extracted from them), then the proof cone in the background while the
+    # cases run: both are subprocess-bound, the decision below waits for it
+    core.coq_make(["pure/Buffered.vo", "pure/Text.vo"])
+    proof_result = {}
+    proof_thread = threading.Thread(target=lambda: proof_result.setdefault("ok", core.proof_stage(rep, "props/C16.v")))
+    proof_thread.start()
+    try:
+        exe_b = core.build_driver("buffered", "Buffered")
+        exe_t = core.build_driver("text", "Text")
+    except Exception:
+        proof_thread.join()
+        raise
     rng = random.Random(core.seed())
     quick = tier == "quick"
 
@@ -803,8 +839,7 @@ def check(tier: str) -> int:
     for f in sorted(corpus_dir.glob("*.json")) if corpus_dir.exists() else []:
         c = json.loads(f.read_text())
         if c.get("kind") == "buffered":
-            sb.add(BufRun(c["wrapped"], [list(x) for x in c["chunks"]],
-                          [tuple(o) for o in c["ops"]]))
+            sb.add(buf_from_replay(c))
             n_corpus += 1
     bounds = []
     plan = [(3, 3, 2)] if quick else [(4, 3, 2), (2, 2, 3)]
@@ -830,18 +865,28 @@ def check(tier: str) -> int:
     for f in sorted(corpus_dir.glob("*.json")) if corpus_dir.exists() else []:
         c = json.loads(f.read_text())
         if c.get("kind") == "text":
-            st.add(TextRun(ENCODINGS.index(c["encoding"]), c["chunks"], [tuple(o) for o in c["ops"]]))
+            st.add(text_from_replay(c))
             n_corpus += 1
     for run in text_cases(rng, tier):
         st.add(run)
     st.flush()
 
-    # kernel-checked sample
+    proof_thread.join()
+    proofs_ok = bool(proof_result.get("ok"))
+
+    # kernel-checked sample (after the build has finished: it reads the .vo files)
     vm = {}
-    for side, mod in ((sb, "Buffered"), (st, "Text")):
+
+    def vm_eval(side, mod):
         smp = side.sample[: (40 if quick else 300)]
         ok, log = core.coq_eval_cases("c16" + side.tag, mod, [c for c, _, _ in smp], [o for _, o, _ in smp])
         vm[side.tag] = (ok, len(smp), log)
+
+    vm_threads = [threading.Thread(target=vm_eval, args=a) for a in ((sb, "Buffered"), (st, "Text"))]
+    for th in vm_threads:
+        th.start()
+    for th in vm_threads:
+        th.join()
 
     # ------------------------------------------------ decision ------------------------------------------------
     hits = 0
@@ -915,3 +960,8 @@ def check(tier: str) -> int:
         "samples": [{"case": r.replay()} for _, _, r in (sb.sample[:1] + st.sample[:1])],
     })
     return rep.finish()
+
+
+if __name__ == "__main__":
+    sys.path[:0] = [f"{core.REPO}/src"]
+    sys.exit(replay(sys.argv[1]))
